@@ -4,6 +4,8 @@ import (
 	"strconv"
 	"strings"
 	"time"
+
+	redisemu "github.com/jimsnab/go-redisemu"
 )
 
 func itoa(i int) string { return strconv.Itoa(i) }
@@ -123,6 +125,62 @@ func genSeqPlan(prop string, seed uint64, thorough bool) *Plan {
 					{"SINTER", "big", "other"}, {"SINTERSTORE", "dst", "big", "other"}, {"SDIFF", "big", "other"}, {"SUNION", "other", "big"}, {"SINTERCARD", "2", "big", "other"}}[g.r.IntN(8)]
 			}
 			return [][]string{{"DBSIZE"}, {"KEYS", "*"}, {"EXISTS", name(g.r.IntN(8))}, {"RANDOMKEY"}}[g.r.IntN(4)]
+		}
+		if g.chance(3) {
+			// variant lastpair: two stable names that share a bucket in every
+			// table smaller than S, so that they end up in the two buckets of
+			// the last sibling pair of a table of size S (white-box guidance from
+			// SimBucketIndex); then churn of one other name. The table must
+			// not be halved while both are there.
+			p.Class = "churn-lastpair"
+			S := []int{32, 64, 128}[g.r.IntN(3)]
+			pair := []string{}
+			for want := S - 2; want < S; want++ {
+				for i := g.r.IntN(1000); i < 200000; i++ {
+					n := "p" + itoa(i)
+					if redisemu.SimBucketIndex(n, S) == want {
+						pair = append(pair, n)
+						break
+					}
+				}
+			}
+			temp := ""
+			for i := 0; i < 200000 && temp == ""; i++ {
+				n := "t" + itoa(i)
+				if b := redisemu.SimBucketIndex(n, S); b < S-2 && b%2 == 0 {
+					temp = n
+				}
+			}
+			one := func(verb string, names ...string) []string {
+				a := []string{verb}
+				if prop != "C06" {
+					a = append(a, "big")
+				}
+				for _, n := range names {
+					a = append(a, n)
+					if verb == "HSET" || verb == "MSET" {
+						a = append(a, "v")
+					}
+				}
+				return a
+			}
+			addv, remv := "MSET", "DEL"
+			if prop == "C04" {
+				addv, remv = "HSET", "HDEL"
+			} else if prop == "C05" {
+				addv, remv = "SADD", "SREM"
+			}
+			add(one(addv, pair...))
+			for i := 0; i < S+4+g.r.IntN(S); i++ {
+				add(one(addv, temp))
+				add(one(remv, temp))
+				if g.chance(10) {
+					add(read())
+				}
+			}
+			add(read())
+			p.Clients = []Client{{Items: items}}
+			return p
 		}
 		keep := 3 + g.r.IntN(8)
 		size := keep + []int{10, 20, 40}[g.r.IntN(3)]
